@@ -109,6 +109,16 @@ pub fn write_text(rng: &mut Rng, dir: &Path, stem: &str, text: &[u8], gz: u8, re
                     cuts.push(p + 1);
                 }
             }
+            if rng.chance(1, 2) {
+                // exactly BETWEEN records: one member ends with the newline, the next starts with '>'
+                // (what `cat a.fa.gz b.fa.gz` and per-record bgzip blocks give)
+                for i in 1..text.len() {
+                    if text[i] == b'>' && text[i - 1] == b'\n' && rng.chance(2, 3) {
+                        cuts.push(i);
+                        rep.count("branch_member_boundary_between_records");
+                    }
+                }
+            }
             cuts.retain(|&c| c <= text.len());
             cuts.sort();
             cuts.dedup();
